@@ -8,6 +8,8 @@ pub trait Src {
     fn u16(&mut self) -> u16;
     fn u32(&mut self) -> u32;
     fn i64(&mut self) -> i64;
+    /// 64 arbitrary bytes drawn at once (no loop in the harness)
+    fn arr64(&mut self) -> [u8; 64];
     fn bool(&mut self) -> bool {
         self.u8() & 1 == 1
     }
@@ -48,6 +50,10 @@ impl Src for KaniSrc {
     }
     #[inline(always)]
     fn i64(&mut self) -> i64 {
+        kani::any()
+    }
+    #[inline(always)]
+    fn arr64(&mut self) -> [u8; 64] {
         kani::any()
     }
     #[inline(always)]
@@ -113,6 +119,17 @@ impl Src for ReplaySrc {
     }
     fn i64(&mut self) -> i64 {
         self.next(8) as i64
+    }
+    fn arr64(&mut self) -> [u8; 64] {
+        let mut out = [0u8; 64];
+        if self.pos < self.vals.len() {
+            let v = &self.vals[self.pos];
+            for i in 0..64.min(v.len()) {
+                out[i] = v[i];
+            }
+        }
+        self.pos += 1;
+        out
     }
     fn bool(&mut self) -> bool {
         self.next(1) as u8 == 1
